@@ -159,7 +159,7 @@ func runSteps(m *mon.M, c *Case, x *exec) {
 		s := x.slots[tokenOf(x.nonce, i, 0)]
 		reused := sp.ReuseOp && op != nil
 		if reused {
-			eff.OpClient, eff.OpCtx, eff.Timeout = made.OpClient, made.OpCtx, made.Timeout
+			eff.OpClient, eff.OpCtx, eff.Timeout, eff.Span = made.OpClient, made.OpCtx, made.Timeout, made.Span
 			box.s, box.call = s, &eff
 		} else {
 			op, box = x.operation(&eff, s)
@@ -189,18 +189,24 @@ func runSteps(m *mon.M, c *Case, x *exec) {
 				}
 				return k + "<unregistered>"
 			}}
-		view := &Case{Registry: append([]string(nil), st.keys...), DefaultMT: st.def, RtCtx: st.ctxKind, TCP: c.TCP, Debug: c.Debug, BasePath: c.BasePath, Adapter: c.Adapter}
+		view := &Case{Registry: append([]string(nil), st.keys...), DefaultMT: st.def, RtCtx: st.ctxKind, TCP: c.TCP, Debug: c.Debug, BasePath: c.BasePath, Adapter: c.Adapter, KeepAlive: c.KeepAlive, Entry: c.Entry}
 		w := expectFor(view, &eff)
 		m.Class("steps:" + orNone(jx.history))
 		if jx.regHist != "" {
 			m.Class("steps-registry:" + jx.regHist)
+		}
+		if c.Entry != "" {
+			m.Class("steps-entry:" + strings.TrimPrefix(entryClass(view, &eff), "@"))
+		}
+		if c.KeepAlive != "" {
+			m.Class("steps:keep-alive:" + c.KeepAlive)
 		}
 		if s.readerRuns > 0 {
 			m.Class("steps-outcome:reader-ran")
 		} else {
 			m.Class("steps-outcome:call-failed")
 		}
-		fpSteps = append(fpSteps, jx.history+"/"+jx.regHist+"/"+w.feature+"/"+strconv.FormatBool(eff.OpClient)+"/"+eff.OpCtx+"/"+st.ctxKind)
+		fpSteps = append(fpSteps, jx.history+"/"+jx.regHist+"/"+w.feature+"/"+strconv.FormatBool(eff.OpClient)+"/"+eff.OpCtx+"/"+st.ctxKind+entryClass(view, &eff)+bodyClass(view, &eff, len(bodyOf(view, &eff, ""))))
 		for _, f := range judgeCallX(view, &eff, s, jx) {
 			m.Violate(f.sig, "step "+strconv.Itoa(i+1)+" of "+strconv.Itoa(len(c.Steps))+" (Runtime "+strconv.Itoa(sp.Runtime)+", registry now "+strings.Join(st.keys, ",")+", default "+strconv.Quote(st.def)+", Runtime.Context "+st.ctxKind+"): "+f.text, c)
 		}
@@ -223,6 +229,7 @@ func genSteps(r *rand.Rand, tcp bool) *Case {
 		c.BasePath = genBasePath(r)
 	}
 	c.Adapter = r.Intn(10) == 0
+	c.KeepAlive, c.Entry = genKeepAlive(r, 8), genEntry(r, 6)
 	// the harness's own model of each Runtime's registry while the steps are laid out
 	type model struct {
 		keys []string
@@ -307,6 +314,7 @@ func genSteps(r *rand.Rand, tcp bool) *Case {
 			call.OpCtx = ""
 		}
 		call.Fill = 0
+		spanFor(r, c.Entry, &call)
 		sp.Call = len(c.Calls)
 		c.Calls = append(c.Calls, call)
 		c.Steps = append(c.Steps, sp)
